@@ -418,8 +418,21 @@ impl InnerLocustDB {
         crate::verif::gate("wal_flush:batched", "");
 
         // Persist new partitions
+        let new_partition_ids: Vec<(String, PartitionID)> = new_partitions
+            .iter()
+            .map(|(metadata, _)| (metadata.tablename.clone(), metadata.id))
+            .collect();
         if let Some(storage) = self.storage.as_ref() {
             storage.persist_partitions(new_partitions, &mut tracer);
+        }
+        // Only now can the columns of the new partitions be evicted and loaded again
+        {
+            let tables = self.tables.read().unwrap();
+            for (tablename, id) in new_partition_ids {
+                if let Some(table) = tables.get(&tablename) {
+                    table.make_evictable(id);
+                }
+            }
         }
         #[cfg(locustdb_verif)]
         crate::verif::gate("wal_flush:partitions_persisted", "");
